@@ -173,8 +173,8 @@ Theorem imp_splitTag tag :
 Proof.
   unfold imp_sam_splitTag, split_tag, COLON. cbv zeta.
   unfold go_range, indexed.
-  change (go_iter _ (combine (zseq 0 (length tag)) tag) ((-1)%Z, (-1)%Z))
-    with (go_iter st_body (combine (zseq 0 (length tag)) tag) ((-1)%Z, (-1)%Z)).
+  timeout 120 (change (go_iter _ (combine (zseq 0 (length tag)) tag) ((-1)%Z, (-1)%Z))
+    with (go_iter st_body (combine (zseq 0 (length tag)) tag) ((-1)%Z, (-1)%Z))).
   rewrite st_first by lia.
   destruct (cut_at 58 tag) as [[a rest]|] eqn:E1; cbn [after]; [|reflexivity].
   destruct (cut_at 58 rest) as [[b c]|] eqn:E2; cbn [after Z.eqb]; [|reflexivity].
@@ -243,7 +243,7 @@ Proof.
   intros Hl. unfold imp_sam_parseInts. unfold bytes, byte in *.
   destruct (Z.eqb_spec (go_len strs) (go_len p)) as [_|Hne]; [|unfold go_len in Hne; lia]. cbn [negb after].
   unfold go_range, indexed.
-  change (go_iter _ ?l p) with (go_iter (fun q => pi_body (fst q) (snd q)) l p).
+  timeout 120 (change (go_iter _ ?l p) with (go_iter (fun q => pi_body (fst q) (snd q)) l p)).
   pose proof (pi_loop strs [] p Hl) as H. cbn [length app Z.of_nat] in H. unfold bytes, byte in *.
   destruct (parse_ints_loop strs) as [zs| |].
   - rewrite H. reflexivity.
